@@ -307,7 +307,7 @@ def check_strlex(R, drv, tier):
             return
         seen.add(key)
         if ok_tok:
-            R.cov.setdefault("unobservable_models", []).append(["K-strlex", src, detail])
+            R.engine_error(f"ENCODER-MISMATCH K-strlex: the model source {src!r} ({detail}) lexes as expected in the real lexer")
             return
         nviol += 1
         got = (toks[1] if len(toks) >= 2 else None) if r.get("ok") else r.get("errors")
@@ -438,7 +438,7 @@ def check_strlex_total(R, drv, tier):
                         R.violation({"engine": "mirsym", "kernel": "K-strlex-total", "kind": "panic"},
                                     f"K-strlex-total: lexing the source text {src!r} panics ({e.msg})", {"prql": src, "detail": str(r)[:300]})
                     else:
-                        R.cov.setdefault("unobservable_models", []).append(["K-strlex-total", src, e.kind, e.msg])
+                        R.engine_error(f"ENCODER-MISMATCH K-strlex-total: the model source {src!r} ({e.kind} {e.msg}) does not panic in the real lexer")
     except Inconclusive as e:
         R.engine_error(f"K-strlex-total: {e}")
         return
